@@ -287,6 +287,73 @@ func bigHeader(r *hxlib.Rng, fields int) *circuit.Circuit {
 	return c
 }
 
+// longLens: lengths of a SINGLE name / type string around and beyond the
+// 4096-byte bufio buffer (a parser that takes a string out of the buffer, e.g.
+// with Peek, fails exactly there).
+var longLens = []int{4095, 4096, 4097, 5000, 8191, 8192, 8193, 100000}
+
+// nestedArrayType builds [1][1]…[1]uint8 whose text is at least n bytes (the
+// only way Info.String prints a long type text).
+func nestedArrayType(n int) types.Info {
+	t := types.Info{Type: types.TUint, IsConcrete: true, Bits: 8, MinBits: 8}
+	for len(t.String()) < n {
+		for k := 0; k < 64 && 5+3*k < n; k++ {
+			e := t
+			t = types.Info{Type: types.TArray, IsConcrete: true, Bits: e.Bits, MinBits: e.Bits, ElementType: &e, ArraySize: 1}
+		}
+	}
+	return t
+}
+
+func longName(r *hxlib.Rng, n int) string {
+	b := make([]byte, n)
+	for i := range b {
+		b[i] = nameAlphabet[r.Intn(len(nameAlphabet))]
+	}
+	return string(b)
+}
+
+// longString gives ONE string of the I/O header the length longLens[k%8]:
+// variant 0 top-level input name, 1 name of a compound member, 2 output name,
+// 3 type text of a top-level input, 4 type text of a compound member (type
+// texts of 4095, 4096, 4097 and 4200 bytes).
+func longString(r *hxlib.Rng, c *circuit.Circuit, k int) string {
+	n := longLens[k%len(longLens)]
+	variant := (k/len(longLens) + k) % 5
+	if k >= 40 {
+		// type-text variants are slow (types.Parse and Info.String are quadratic
+		// in the nesting depth): only the first 40 cases of a run use them
+		variant = (k/len(longLens) + k) % 3
+	}
+	nin := c.Inputs.Size()
+	member := circuit.IOArg{Name: "m", Type: types.Info{Type: types.TUint, IsConcrete: true, Bits: types.Size(nin), MinBits: types.Size(nin)}}
+	st := circuit.IOArg{Name: "s", Type: types.Info{Type: types.TStruct, IsConcrete: true, Bits: types.Size(nin)}}
+	if variant >= 3 && n > 4200 {
+		n = 4200
+	}
+	switch variant {
+	case 0:
+		c.Inputs[0].Name = longName(r, n)
+	case 1:
+		member.Name = longName(r, n)
+		st.Compound = circuit.IO{{Name: "first", Type: types.Info{Type: types.TUint, IsConcrete: true}}, member}
+		c.Inputs = circuit.IO{st}
+	case 2:
+		c.Outputs[0].Name = longName(r, n)
+	case 3:
+		t := nestedArrayType(n)
+		t.Bits = c.Inputs[0].Type.Bits
+		c.Inputs[0].Type = t
+	default:
+		t := nestedArrayType(n)
+		t.Bits = types.Size(nin)
+		member.Type = t
+		st.Compound = circuit.IO{member}
+		c.Inputs = circuit.IO{st}
+	}
+	return fmt.Sprintf("long-string-v%d", variant)
+}
+
 // ---------------------------------------------------------------- descriptions
 
 func argTokens(sb *strings.Builder, a circuit.IOArg) {
